@@ -192,6 +192,7 @@ func canonical(e *env) {
 			fmt.Sprintf("cfm ; md5.a_b %s %s ; sha256.a_b %s %s ; md5.c %s %s", m5, size, b.hash, size, m5, size)})
 	// large objects through the zstd client: reader closed early, frontend whose stream breaks
 	cases = append(cases,
+		[]string{"#cfg 16 100", "bigput 512 reject7", "bigput 512 accept", "bigput 256 full", "bigput 1024 reject8", "bigput 1024 accept"},
 		[]string{"#cfg 16 100", "stallget 1 1"},
 		[]string{"#cfg 16 100", "stallget 2 0"},
 		[]string{"#cfg 16 100", "bigget 1024 1", "bigget 768 3", "bigget 1024 2"},
